@@ -365,6 +365,77 @@ pub fn worker(ctx: &mut Ctx) {
         if ctx.shard == 0 {
             ctx.report.notes.push("distance routine: all pairs of strings of length <= 4 over {a,b} (exhaustive), via a one-word dictionary".into());
         }
+        // case patterns: all pairs of strings of length 1..5 over {a, A}; the result must be the distance to
+        // the query or to its lower-case form, and a word within the bound must be returned
+        let mut cs: Vec<Vec<char>> = Vec::new();
+        let mut fr: Vec<Vec<char>> = vec![vec![]];
+        for _ in 0..5 {
+            let mut next = Vec::new();
+            for t in &fr {
+                for c in ['a', 'A'] {
+                    let mut n = t.clone();
+                    n.push(c);
+                    next.push(n);
+                }
+            }
+            cs.extend(next.iter().cloned());
+            fr = next;
+        }
+        for (wi, w) in cs.iter().enumerate() {
+            if !ctx.mine(wi as u64) {
+                continue;
+            }
+            let mut m = MutableDictionary::new();
+            m.append_word(w.clone(), WordMetadata::default());
+            let f: FstDictionary = m.clone().into();
+            for q in &cs {
+                for (name, res) in [("mutable", m.fuzzy_match(q, 5, 3).first().map(|x| x.edit_distance as usize)), ("fst", f.fuzzy_match(q, 3, 3).first().map(|x| x.edit_distance as usize))] {
+                    ctx.report.evaluations += 1;
+                    let (t1, t2) = (lev(q, w), lev(&lower(q), w));
+                    let bound = if name == "mutable" { 5 } else { 3 };
+                    let ok = match res {
+                        Some(d) => d == t1 || d == t2,
+                        // a miss is only acceptable when neither form of the query is within the bound
+                        // (completeness is promised for lower-case queries only)
+                        None => t1.min(t2) > bound || q.iter().any(|c| c.is_uppercase()),
+                    };
+                    if !ok {
+                        ctx.report.finding("C15", &format!("distance.case-pattern@{name}"), w.len() + q.len(), || json!({"word": st(w), "query": st(q), "backend": name}), || {
+                            format!("reported {:?}; Levenshtein to the query {t1}, to its lower-case form {t2}", res)
+                        });
+                    }
+                }
+            }
+        }
+        // apostrophe and case variants: four back-ends built from the same words must agree on every query API
+        if ctx.shard == 0 {
+            let base = ["O\u{2019}Brien", "o'clock", "rock\u{2019}n\u{2019}roll", "don't", "Qu\u{2018}est", "L'Oreal", "d\u{FF07}Arc", "caf\u{00E9}", "Na\u{00EF}ve", "it\u{2019}s"];
+            let words: Vec<Vec<char>> = base.iter().map(|w| w.chars().collect()).collect();
+            if let Ok(b) = guarded(|| backends(&words)) {
+                let mut rep = std::mem::take(&mut ctx.report);
+                for w in &words {
+                    let variants: Vec<Vec<char>> = vec![
+                        w.clone(),
+                        w.iter().map(|c| if matches!(c, '\u{2019}' | '\u{2018}' | '\u{FF07}') { '\'' } else { *c }).collect(),
+                        w.iter().map(|c| if *c == '\'' { '\u{2019}' } else { *c }).collect(),
+                        lower(w),
+                        w.iter().flat_map(|c| c.to_uppercase()).collect(),
+                        w.iter().map(|c| if *c == '\u{2019}' { '\u{2018}' } else { *c }).collect(),
+                    ];
+                    for q in &variants {
+                        agree(&mut rep, &b, &words, q, "apostrophe-variants");
+                        // exact match must not depend on which apostrophe the stored word or the query uses
+                        let expect_exact = words.iter().any(|x| norm(x) == norm(q));
+                        for (i, d) in b.dicts.iter().enumerate() {
+                            if d.contains_exact_word(q) != expect_exact {
+                                rep.finding("C15", &format!("exact.apostrophe@{}", b.names[i]), q.len(), || json!({"dictionary": base, "query": st(q)}), || format!("contains_exact_word says {}, apostrophe-normalised comparison says {expect_exact}", !expect_exact));
+                            }
+                        }
+                    }
+                }
+                ctx.report = rep;
+            }
+        }
     }
 
     // ---- sampled: curated dictionary with dictionary words, re-cased / edited / apostrophe variants, long queries
